@@ -14,7 +14,7 @@ UNITS = [CK.unit_c05_sweep(), CK.unit_k1_witness(), CK.unit_is_unique_check_row(
 from contracts import fields as FL
 UNITS += [CK.unit_is_unique_init(), CK.unit_distinct_count_init(), CK.unit_audit_first_token(), CK.unit_audit_count_expression(), FL.unit_field_name_index()]
 UNITS += [VIO.unit_raw_rows().also("C05")]
-UNITS += [VIO.unit_reader_close(), VIO.unit_reset_checks()]
+UNITS += [VIO.unit_reset_checks()]
 from props import _groups as _G
 UNITS = _G.with_groups(PROPERTY, UNITS, _G.READERS, _G.VALIDATION, _G.CHECKS)
 from contracts import structure as ST2
